@@ -8,6 +8,7 @@ From V.c04 Require Import C04AllocModel C04AllocProofs.
 From V.c04 Require Import C04MfraModel C04MfraProofs.
 From V.c04 Require Import C04TreeModel C04TreeProofs.
 From V.c04 Require Import C04XrefModel C04XrefProofs.
+From V.c04 Require Import C04InfoModel C04InfoProofs.
 Open Scope N_scope.
 
 (* ---- (a) bits.FixedSliceReader: every method, every reachable state, under the caller guards ---- *)
@@ -532,8 +533,68 @@ Example ex_xref_lookup :
   group_lookup_gen false (sbgp_decoded true [(96, 65538)]) (mkSgpd true [SGSeig 8]) = Panic /\
   group_lookup_gen true (sbgp_decoded true [(96, 65538)]) (mkSgpd true [SGSeig 8]) = Err /\
   xtraf_wf ex_xref_traf = true /\
-  moof_senc_pass_x None 0 [ex_xref_traf] = Ok [Some (2, 2)] /\
-  moof_senc_pass_x (Some [(Some 1, EAV true (Some 8))]) 0 [ex_xref_traf] = Ok [Some (2, 2)] /\
+  moof_senc_pass_x None 0 [ex_xref_traf] = Ok [Some (2, 2, 8)] /\
+  moof_senc_pass_x (Some [(Some 1, EAV true (Some 8))]) 0 [ex_xref_traf] = Ok [Some (2, 2, 8)] /\
   moof_senc_pass_x (Some [(Some 1, EAV false None)]) 0 [ex_xref_traf] = Ok [None] /\
   moof_senc_pass_x None 1 [ex_xref_traf] = Err.
+Proof. vm_compute. repeat split; reflexivity. Qed.
+
+(* ---- (h) Info of the table boxes (mp4/infodumper.go getInfoLevel; the Info bodies of stsc trun senc tfra sidx saiz ctts
+        stts sbgp saio stsz stss stco co64 elst sdtp subs).  A state ibox carries the lengths of the slices the text
+        ranges over or indexes (parallel slices separately); info_lines = number of lines written, Panic at an index
+        expression out of range; ibox_wf = the relations between those lengths that the decoders establish
+        (C04_info_decoded_wf: state_of_box is the state DecodeBox / DecodeBoxSR leave, through the prologue models).
+        For EVERY well-formed state and EVERY level (any int, from any specificBoxLevels token list) Info returns and
+        writes at most Size() + 1030 lines (1030: a trun without per-sample fields may hold 1024 samples in 16 bytes). ---- *)
+Theorem C04_info_total : forall b level, ibox_wf b = true ->
+  exists n, info_lines b level = Ok n /\ n <= isize b + 1030.
+Proof. exact info_total. Qed.
+Print Assumptions C04_info_total.
+
+Theorem C04_info_total_levels : forall b bt toks, ibox_wf b = true ->
+  exists n, info_lines b (get_info_level bt toks) = Ok n /\ n <= isize b + 1030.
+Proof. exact info_total_levels. Qed.
+Print Assumptions C04_info_total_levels.
+
+Theorem C04_info_decoded_wf : forall sr bs st, state_of_box sr bs = Some (Some st) -> ibox_wf st = true.
+Proof. exact state_of_box_wf. Qed.
+Print Assumptions C04_info_decoded_wf.
+
+Theorem C04_info_decoded_total : forall sr bs st bt toks, state_of_box sr bs = Some (Some st) ->
+  exists n, info_lines st (get_info_level bt toks) = Ok n /\ n <= isize st + 1030.
+Proof. exact info_decoded_total. Qed.
+Print Assumptions C04_info_decoded_total.
+
+(* a senc parsed by the second pass: the relations of ibox_wf are CHECKED by senc_parsed_state on the state computed from
+   senc_parse (a failing check is a correspondence mismatch of the X stream), not derived from parseAndFillSamples *)
+Theorem C04_info_senc_parsed_partial : forall fl cnt raw iv st level, senc_parsed_state fl cnt raw iv = Some st ->
+  exists n, info_lines st level = Ok n /\ n <= isize st + 1030.
+Proof. intros fl cnt raw iv st level H. exact (info_total st level (senc_parsed_state_wf fl cnt raw iv st H)). Qed.
+Print Assumptions C04_info_senc_parsed_partial.
+
+(* without the relations (API-built boxes with parallel slices of different lengths) the loops index out of range at
+   level >= 1 and print at level 0; for stts exactly when SampleTimeDelta is the shorter slice *)
+Theorem C04_info_wf_needed :
+  info_lines (IStts 2 1) 1 = Panic /\ info_lines (ICtts 1 1) 1 = Panic /\ info_lines (ISbgp 0 2 1) 1 = Panic /\
+  info_lines (IStsc 2 0 1) 1 = Panic /\ info_lines (ISaiz 0 0 3 2) 1 = Panic /\
+  info_lines (ISenc 0 2 8 1 [] 16) 1 = Panic /\ info_lines (ISenc 2 2 0 0 [1] 20) 1 = Panic /\
+  info_lines (IStts 2 1) 0 = Ok 2 /\ info_lines (ISenc 2 2 0 0 [1] 20) 0 = Ok 3.
+Proof. exact info_wf_needed. Qed.
+Print Assumptions C04_info_wf_needed.
+
+Theorem C04_info_stts_panics_iff : forall counts deltas level, (1 <= level)%Z ->
+  (info_lines (IStts counts deltas) level = Panic <-> deltas < counts).
+Proof. exact info_stts_panics_iff. Qed.
+Print Assumptions C04_info_stts_panics_iff.
+
+(* stsc with ids 1,2 (28 + 12 bytes): the decoder allocates SampleDescriptionID; trun with 2 samples and sizes; a parsed senc *)
+Example ex_info_stsc : list N :=
+  [0;0;0;40;115;116;115;99; 0;0;0;0; 0;0;0;2; 0;0;0;1;0;0;0;1;0;0;0;1; 0;0;0;2;0;0;0;1;0;0;0;2].
+Example ex_info_states :
+  state_of_box true ex_info_stsc = Some (Some (IStsc 2 0 2)) /\ ibox_wf (IStsc 2 0 2) = true /\
+  info_lines (IStsc 2 0 2) 1 = Ok 4 /\ info_lines (IStsc 2 0 2) 0 = Ok 2 /\
+  get_info_level [115;116;115;99] [([97;108;108], Some 0%Z); ([115;116;115;99], Some 2%Z)] = 2%Z /\
+  get_info_level [115;116;115;99] [([115;116;115;99], None); ([97;108;108], Some 2%Z)] = 0%Z /\
+  senc_parsed_state 2 2 [1;1;1;1;1;1;1;1;0;0; 2;2;2;2;2;2;2;2;0;1;0;10;0;0;0;100] 8 = Some (ISenc 2 2 8 2 [0;1] 26) /\
+  info_lines (ISenc 2 2 8 2 [0;1] 26) 1 = Ok 6.
 Proof. vm_compute. repeat split; reflexivity. Qed.
